@@ -124,6 +124,15 @@ by `BOM::new` before the loop: `expect("Expecting non-empty pattern.")`; the har
 theorem bom_construction_total (p : List Nat) : Bom.buildS p = some (Bom.build p) :=
   Bom.buildS_eq_build p
 
+/-- **BOM, with the panics of the Rust code explicit.** `Bom.findAllS` is the variant of the mirror model in which
+the construction fails where `BOM::new` would panic (see `bom_construction_total`) and the search indexes the text
+exactly as `Matches::next` does — `text[window - j]`, `window - m`, `m + 2 - j` in `usize`, failing on underflow or
+an out-of-bounds index (and on exhausted loop fuel). It never fails and returns exactly the oracle's list, for every
+non-empty pattern and every text. -/
+theorem bom_exact_no_panic (p t : List Nat) (hp : 0 < p.length) : Bom.findAllS p t = some (occurrences p t) :=
+  Bom.findAllS_eq_occurrences p t hp
+
+example : Bom.findAllS [1, 2, 1] [1, 2, 1, 2, 1] = some [0, 2] := by decide
 example : Bom.findAll [1, 2, 1] [1, 2, 1, 2, 1] = [0, 2] := by decide
 example : Bom.build [1, 2, 1, 1, 2] =
     [[(1, 2), (2, 1)], [(1, 2)], [(2, 4), (1, 3)], [(2, 4)], [(1, 5)]] := by decide
